@@ -264,6 +264,7 @@ type c19Node struct {
 	commitLog map[string]int    // key -> times committed (Update)
 	semLog    map[string]string // double-sign identity -> first committed key
 	accepted  map[string]bool   // keys that went through verification or consensus at this node
+	fromCons  map[string]bool   // keys that entered this pool through AddEvidenceFromConsensus (tryAddVote)
 	tainted   map[string]bool   // keys the harness itself pushed through AddEvidenceFromConsensus without their being consensus-built
 	dead      bool
 }
@@ -434,8 +435,18 @@ func (c *c19Case) planSet(h uint64) {
 	for _, m := range ms {
 		vals = append(vals, types.NewValidator(c19Keys[m.key].addr, m.power))
 	}
-	c.members[h] = ms
-	c.sets[h] = types.NewValidatorSet(vals)
+	set := types.NewValidatorSet(vals)
+	// keep the harness's table in the order of the set (validator index = position)
+	var ordered []c19Member
+	for _, v := range set.Validators {
+		for _, m := range ms {
+			if c19Keys[m.key].addr == v.Address {
+				ordered = append(ordered, m)
+			}
+		}
+	}
+	c.members[h] = ordered
+	c.sets[h] = set
 }
 
 func c19Perm(r *c19Rand, n int) []int {
@@ -601,7 +612,7 @@ func (c *c19Case) stTok(h uint64) string {
 }
 
 func (c *c19Case) newNode(k int) *c19Node {
-	nd := &c19Node{k: k, db: memorydb.New(), seen: map[uint64]*types.Commit{}, commitLog: map[string]int{}, semLog: map[string]string{}, accepted: map[string]bool{}, tainted: map[string]bool{}}
+	nd := &c19Node{k: k, db: memorydb.New(), seen: map[uint64]*types.Commit{}, commitLog: map[string]int{}, semLog: map[string]string{}, accepted: map[string]bool{}, tainted: map[string]bool{}, fromCons: map[string]bool{}}
 	nd.store = cstate.NewStore(nd.db)
 	g := c.blocks[0]
 	rawdb.WriteBlock(nd.db, g.block, g.parts, &types.Commit{})
@@ -688,6 +699,10 @@ func c19Class(err error) string {
 		return "inv:expired"
 	case strings.HasPrefix(m, "address") && strings.Contains(m, "was not a validator"):
 		return "inv:notval"
+	case strings.HasPrefix(m, "validator indices"):
+		return "inv:index"
+	case m == "evidence is too old":
+		return "inv:expired"
 	case strings.HasPrefix(m, "h/r/s does not match"):
 		return "inv:hrs"
 	case strings.HasPrefix(m, "validator addresses do not match"):
@@ -784,10 +799,17 @@ func (c *c19Case) acceptedNow(nd *c19Node, e *c19Ev, via string, wasPending bool
 		return // the harness, not consensus, put it there
 	}
 	if why := c.truth(e.ev); why != "" {
-		c.o.Fail(c.step, "accepted-unsound:"+why, fmt.Sprintf("node=%d via=%s kind=%s ev=%d h=%d", nd.k, via, e.kind, e.id, e.ev.Height()))
+		origin := ""
+		if wasPending && nd.fromCons[c19Key2(e)] {
+			origin = " origin=consensus" // unverified: put into this pool by tryAddVote
+		}
+		c.o.Fail(c.step, "accepted-unsound:"+why, fmt.Sprintf("node=%d via=%s kind=%s ev=%d h=%d%s", nd.k, via, e.kind, e.id, e.ev.Height(), origin))
 	}
 	if nd.commitLog[c19Key2(e)] > 0 {
 		c.o.Fail(c.step, "accepted-committed", fmt.Sprintf("node=%d via=%s kind=%s ev=%d", nd.k, via, e.kind, e.id))
+	}
+	if c.truth(e.ev) != "" {
+		return // already reported as unsound; the expiry rule below is about the block's time, which it does not carry
 	}
 	if !wasPending && c.expiredAt(nd.height, e.ev.Height()) {
 		c.o.Fail(c.step, "accepted-expired", fmt.Sprintf("node=%d via=%s kind=%s ev=%d h=%d state=%d", nd.k, via, e.kind, e.id, e.ev.Height(), nd.height))
@@ -1555,9 +1577,14 @@ func (c *c19Case) opGen(nd *c19Node) {
 		genS = fmt.Sprintf(" gen:%d,%d,%d,%d,%s", c.sigs[string(got.VoteA.Signature)].id, c.sigs[string(got.VoteB.Signature)].id,
 			got.TotalVotingPower, got.ValidatorPower, c19Nanos(got.Timestamp))
 		nd.accepted[c19Key2(e)] = true
+		nd.fromCons[c19Key2(e)] = true
 	default:
 		if !conflict && me != ek {
 			c.o.Fail(c.step, "gen-no-conflict", fmt.Sprintf("node=%d err=%v", nd.k, err2))
+		}
+		if conflict && me != ek {
+			// no evidence although a conflict was reported: NewDuplicateVoteEvidence returned nil
+			genS = " gen:nil"
 		}
 	}
 	// model input
@@ -1583,7 +1610,8 @@ func (c *c19Case) opGen(nd *c19Node) {
 		c.o.Mark(fmt.Sprintf("gen/late=%v/me-validator=%v", late, me != 5))
 		// the generator's obligations, checked from the harness's knowledge once the block exists: see checkGenerated
 	} else if me != ek && pan == "" {
-		c.o.Fail(c.step, "conflict-without-evidence", fmt.Sprintf("node=%d late=%v", nd.k, late))
+		// a correct node saw the double-signing and produced no evidence at all
+		c.o.Fail(c.step, "generated-rejected:nil", fmt.Sprintf("generator=%d late=%v equivocator=%d in-set-of-current-height=%v (tryAddVote builds the evidence from cs.Validators)", nd.k, late, ek+1, c.sets[H].HasAddress(c19Keys[ek].addr)))
 	}
 }
 
@@ -1610,7 +1638,7 @@ func (c *c19Case) checkGenerated() {
 			if res != "ok" {
 				c.genRej++
 				why := c.truth(e.ev)
-				c.o.Fail(c.step, "generated-rejected:"+res, fmt.Sprintf("generator=%d verifier=%d kind=%s ev=%d h=%d truth=%q evtime=%s blocktime=%s", e.genBy, nd.k, e.kind, e.id, h, why, c19Nanos(e.ev.Timestamp), c19Nanos(c.blocks[h].time)))
+				c.o.Fail(c.step, "generated-rejected:"+strings.TrimPrefix(res, "inv:"), fmt.Sprintf("generator=%d verifier=%d kind=%s ev=%d h=%d truth=%q evtime=%s blocktime=%s", e.genBy, nd.k, e.kind, e.id, h, why, c19Nanos(e.ev.Timestamp), c19Nanos(c.blocks[h].time)))
 			} else {
 				c.o.Count("generated-accepted")
 			}
@@ -1622,11 +1650,12 @@ func (c *c19Case) checkGenerated() {
 // proposing
 
 // proposalEvidence is CreateProposalBlock's evidence selection (mainchain/blockchain/block_operations.go):
-//   maxNumEvidence, _ := types.MaxEvidencePerBlock(lastState.ConsensusParams.Evidence.MaxBytes)
-//   evidence, _ := bo.evPool.PendingEvidence(maxNumEvidence)
+//   _, maxEvidenceBytes := types.MaxEvidencePerBlock(lastState.ConsensusParams.Evidence.MaxBytes)
+//   evidence, _ := bo.evPool.PendingEvidence(maxEvidenceBytes)
 func (c *c19Case) proposalEvidence(nd *c19Node) []*c19Ev {
-	maxNumEvidence, maxBytes := types.MaxEvidencePerBlock(c.params.Evidence.MaxBytes)
-	evs := c.opPending(nd, maxNumEvidence)
+	_, maxBytes := types.MaxEvidencePerBlock(c.params.Evidence.MaxBytes)
+	maxNumEvidence := maxBytes
+	evs := c.opPending(nd, maxBytes)
 	fam := c.family(nd, "evidence-pending")
 	if len(fam) > 0 && len(evs) == 0 {
 		first := ""
@@ -1717,7 +1746,15 @@ func (c *c19Case) extend() {
 			for _, e := range evs {
 				kinds += e.kind + ","
 			}
-			c.o.Fail(c.step, "block-validity-disagreement", fmt.Sprintf("height=%d proposer=%d why=%s kinds=%s verdicts=%v", c.tip()+1, prop.k, why, kinds, vs))
+			origin := ""
+			for _, nd := range tips {
+				for _, e := range evs {
+					if nd.fromCons[c19Key2(e)] && c.truth(e.ev) != "" {
+						origin = " origin=consensus" // an unverified, unsound item put into a pool by tryAddVote is in the list
+					}
+				}
+			}
+			c.o.Fail(c.step, "block-validity-disagreement", fmt.Sprintf("height=%d proposer=%d why=%s kinds=%s verdicts=%v%s", c.tip()+1, prop.k, why, kinds, vs, origin))
 		}
 		if !all {
 			c.o.Count("proposal-rejected:" + why)
@@ -1812,9 +1849,9 @@ func c19FactsBody() string {
 	s += fmt.Sprintf("Definition default_block_max_bytes : Z := %d%%Z.\n", p.Block.MaxBytes)
 	s += fmt.Sprintf("Definition max_evidence_bytes : Z := %d%%Z.\n", types.MaxEvidenceBytes)
 	s += fmt.Sprintf("Definition max_evidence_bytes_denominator : Z := %d%%Z.\n", types.MaxEvidenceBytesDenominator)
-	s += "(* CreateProposalBlock passes the first result of MaxEvidencePerBlock(Evidence.MaxBytes), a count, as PendingEvidence's byte cap *)\n"
-	s += fmt.Sprintf("Definition default_proposal_pending_cap : Z := %d%%Z.\n", maxNum)
-	s += fmt.Sprintf("Definition default_proposal_evidence_budget : Z := %d%%Z.\n", maxBytes)
+	s += "(* MaxEvidencePerBlock(Evidence.MaxBytes) = (count, bytes); CreateProposalBlock passes the bytes to PendingEvidence (commit e536522) *)\n"
+	s += fmt.Sprintf("Definition default_proposal_evidence_count : Z := %d%%Z.\n", maxNum)
+	s += fmt.Sprintf("Definition default_proposal_pending_cap : Z := %d%%Z.\n", maxBytes)
 	return s
 }
 
